@@ -281,7 +281,7 @@ pub fn shape(e: &Expr) -> String {
                 classes.dedup();
                 format!("dur[{}]", classes.join(","))
             }
-            Lit::Date(d) => format!("date[{:?}]", d.form).replace(' ', ""),
+            Lit::Date(_) => "date".into(),
             Lit::RelDay { .. } => "relday".into(),
             Lit::Time(t) => format!("time[{}{}]", if t.meridiem.is_some() { "ampm" } else { "24h" }, if t.zone.is_some() { ",zone" } else { "" }),
             Lit::Unit { .. } => "unit".into(),
@@ -306,4 +306,27 @@ pub fn stmt_shape(s: &Stmt) -> String {
         Stmt::Fail { .. } => "fail".into(),
         Stmt::FailAssign { .. } => "fail-assign".into(),
     }
+}
+
+/// finer class of a date +/- duration line, so that a known finding can name
+/// exactly the failing branch (needs the evaluated left operand)
+pub fn date_arith_class(e: &Expr, c: &Ctx) -> Option<String> {
+    if let Expr::Bin { l, op, r, .. } = e {
+        let d = match eval(l, c) { R::V(MVal::Date(d)) => d, _ => return None };
+        let cal = match eval(r, c) { R::V(MVal::Dur { cal, .. }) => cal, _ => return None };
+        let (_, m, _) = civil_from_days(d);
+        return Some(match cal {
+            Some(Cal::Days(n)) => if n >= 30 { format!("date{}days>=30", op) } else { format!("date{}days<30", op) },
+            Some(Cal::Months(n)) if { let (_, mm, dd) = civil_from_days(d); mm == 2 && dd == 29 && n >= 12 } => format!("date{}months:from-feb-29", op),
+            Some(Cal::Months(n)) => {
+                let rem = n % 12;
+                if *op == '-' {
+                    let mm = m as i64 - rem;
+                    if mm < 0 { "date-months:borrow".into() } else if mm == 0 { "date-months:lands-on-month-0".into() } else { "date-months:no-borrow".into() }
+                } else { "date+months".to_string() }
+            }
+            None => format!("date{}mixed", op),
+        });
+    }
+    None
 }
